@@ -8,7 +8,7 @@ import json, os, re, sys, time, hashlib, subprocess
 
 VERIF = os.path.dirname(os.path.dirname(os.path.abspath(__file__)))
 REPO = os.environ.get('VERIF_REPO', '/repo')
-WORK = os.path.join(VERIF, '.work')
+WORK = os.environ.get('VERIF_WORK') or os.path.join(VERIF, '.work')      # override: seeded-change lanes only
 os.makedirs(WORK, exist_ok=True)
 
 HOLDS, VIOLATED, BROKEN = 'holds', 'violated', 'broken'
